@@ -114,6 +114,7 @@ type ConcScenario struct {
 	PostRead     bool // scheduling point after every gateway read on a client connection
 	ClientWindow int  // > 0: gateway writes to a client block once that many bytes are unread
 	RoundRobin   bool // default schedule advances the clients in lockstep (cyclic candidate order)
+	InPreload    bool // legacy: the inbound body's first bytes arrive with the request head (World.InPreload)
 	Fine         bool // statement-level scheduling points in web, security, identity, rdp are active
 	Deviation    bool // bound deviations from the default schedule instead of preemptions (multi-tunnel scenarios)
 	MaxSteps     int
@@ -381,6 +382,19 @@ func runClient(w *World, h http.Handler, p TunnelPlan, o *TunnelObs) {
 					}
 				}
 			}
+		case strings.HasPrefix(op, "coalesced:"):
+			// one transport unit of exactly n bytes: a DATA packet that fills it up to the ending packet
+			// (CLOSE_CHANNEL, or an out-of-order handshake), which is its tail
+			f := strings.Split(op, ":")
+			n, _ := strconv.Atoi(f[1])
+			tailPkt := tsgu.CloseChannel()
+			if f[2] == "bad" {
+				tailPkt = tsgu.Handshake(1, 0, 0, tsgu.ExtAuthPAA)
+			}
+			fill := n - len(tailPkt) - 10
+			if fill >= 0 {
+				c.SendSegment(append(tsgu.Data(bytes.Repeat([]byte{'d'}, fill)), tailPkt...))
+			}
 		case strings.HasPrefix(op, "expect:"):
 			// read the response to a canonical step
 			for _, st := range steps {
@@ -561,6 +575,7 @@ func RunConc(sc ConcScenario, prefix []int, logOn bool) *ConcResult {
 		w.PostRead = sc.PostRead
 		w.ClientWindow = sc.ClientWindow
 		w.Parties = len(sc.Plans)
+		w.InPreload = sc.InPreload
 		res.World = w
 		cfg := sc.Gw
 		if cfg.Hosts == nil {
